@@ -1,4 +1,5 @@
 import copy
+import datetime
 import functools
 import collections
 
@@ -6,9 +7,18 @@ from ..helpers.resource_matcher import ResourceMatcher
 
 Aggregator = collections.namedtuple('Aggregator', ['func'])
 
+def total(values):
+    # like sum(), but without the integer start value (durations can be added, too)
+    return functools.reduce(lambda x, y: x + y, values) if values else 0
+
+
+def average(values):
+    return total(values) / len(values)
+
+
 AGGREGATORS = {
-    'sum': Aggregator(lambda values, fstr, row: sum(values)),
-    'avg': Aggregator(lambda values, fstr, row: sum(values) / len(values)),
+    'sum': Aggregator(lambda values, fstr, row: total(values)),
+    'avg': Aggregator(lambda values, fstr, row: average(values)),
     'max': Aggregator(lambda values, fstr, row: max(values)),
     'min': Aggregator(lambda values, fstr, row: min(values)),
     'multiply': Aggregator(
@@ -27,6 +37,8 @@ def get_type(res_fields, operation_fields, operation):
         return 'any'
     if operation in ('format', 'join'):
         return 'string'
+    if 'duration' in types and operation in ('sum', 'avg', 'min', 'max'):
+        return 'duration'
     if ('number' in types) or (operation == 'avg'):
         return 'number'
     # integers
@@ -37,6 +49,7 @@ def get_type(res_fields, operation_fields, operation):
 
 
 def process_resource(fields, rows):
+    declared = dict((f.name, f.type) for f in rows.res.schema.fields) if hasattr(rows, 'res') else {}
     for row in rows:
         for field in fields:
             op = field['operation']
@@ -51,6 +64,10 @@ def process_resource(fields, rows):
                 if not values and op in ('avg', 'max', 'min', 'multiply'):
                     # nothing to aggregate (all sources are null): the result is null
                     new_col = None
+                elif not values and op == 'sum' and field.get('source') and \
+                        all(declared.get(c) == 'duration' for c in field['source']):
+                    # the sum of no durations is the empty duration, not the number 0
+                    new_col = datetime.timedelta(0)
                 else:
                     new_col = AGGREGATORS[op].func(values, with_, row)
                 row[target] = new_col
